@@ -241,3 +241,126 @@ func lessThanFact(ft ir.Fact) (x, y ssa.Value, strict bool, ok bool) {
 	}
 	return nil, nil, false, false
 }
+
+// dependsOn computes the values of fn (and of its closures' bodies are NOT
+// followed) that are data-dependent on one of the seeds: through operands of
+// pure instructions, through local cells (a Store of a dependent value into an
+// Alloc makes every load of that Alloc dependent) and through fields (a Store
+// of a dependent value into field K makes every load of field K in fn
+// dependent).  Calls do not propagate, except conversions/len-like builtins.
+func (c *Ctx) dependsOn(fn *ssa.Function, seeds ...ssa.Value) map[ssa.Value]bool {
+	dep := map[ssa.Value]bool{}
+	for _, s := range seeds {
+		dep[s] = true
+	}
+	cells := map[ssa.Value]bool{}
+	fields := map[string]bool{}
+	for changed := true; changed; {
+		changed = false
+		for _, b := range fn.Blocks {
+			for _, in := range b.Instrs {
+				switch x := in.(type) {
+				case *ssa.Store:
+					if !dep[x.Val] {
+						continue
+					}
+					switch a := x.Addr.(type) {
+					case *ssa.Alloc:
+						if !cells[a] {
+							cells[a] = true
+							changed = true
+						}
+					case *ssa.FieldAddr:
+						if k := c.P.FieldKey(a); k != "" && !fields[k] {
+							fields[k] = true
+							changed = true
+						}
+					}
+					continue
+				case *ssa.Call:
+					if _, isB := x.Call.Value.(*ssa.Builtin); !isB {
+						continue
+					}
+				}
+				v, ok := in.(ssa.Value)
+				if !ok || dep[v] {
+					continue
+				}
+				hit := false
+				if u, ok := in.(*ssa.UnOp); ok && u.Op == token.MUL {
+					switch a := u.X.(type) {
+					case *ssa.Alloc:
+						hit = cells[a]
+					case *ssa.FieldAddr:
+						hit = fields[c.P.FieldKey(a)]
+					}
+				}
+				if !hit {
+					for _, op := range in.Operands(nil) {
+						if *op != nil && dep[*op] {
+							hit = true
+							break
+						}
+					}
+				}
+				if hit {
+					dep[v] = true
+					changed = true
+				}
+			}
+		}
+	}
+	return dep
+}
+
+// pathFactsAvoiding enumerates the acyclic paths from the instruction `from`
+// to an exit of its function that do not execute an instruction satisfying
+// `avoid`, and returns for each the branch outcomes taken along it (cycles are
+// cut: a block is entered at most once per path).  complete is false when the
+// enumeration was cut at limit paths.
+func pathFactsAvoiding(fi *ir.FnInfo, from ssa.Instruction, avoid func(ssa.Instruction) bool, limit int) (paths [][]ir.Fact, exits []ssa.Instruction, complete bool) {
+	complete = true
+	onPath := map[*ssa.BasicBlock]bool{}
+	var rec func(b *ssa.BasicBlock, start int, facts []ir.Fact)
+	rec = func(b *ssa.BasicBlock, start int, facts []ir.Fact) {
+		if !complete {
+			return
+		}
+		for i := start; i < len(b.Instrs); i++ {
+			if avoid(b.Instrs[i]) {
+				return
+			}
+		}
+		if len(b.Succs) == 0 {
+			if len(paths) >= limit {
+				complete = false
+				return
+			}
+			paths = append(paths, append([]ir.Fact(nil), facts...))
+			exits = append(exits, b.Instrs[len(b.Instrs)-1])
+			return
+		}
+		onPath[b] = true
+		for k, s := range b.Succs {
+			if onPath[s] {
+				continue
+			}
+			nf := facts
+			if i, ok := b.Instrs[len(b.Instrs)-1].(*ssa.If); ok && b.Succs[0] != b.Succs[1] {
+				cnd, t := ir.StripNot(i.Cond, k == 0)
+				nf = append(append([]ir.Fact(nil), facts...), ir.Fact{If: i, Cond: cnd, Truth: t})
+			}
+			rec(s, 0, nf)
+		}
+		onPath[b] = false
+	}
+	b := from.Block()
+	idx := 0
+	for i, in := range b.Instrs {
+		if in == from {
+			idx = i + 1
+		}
+	}
+	rec(b, idx, fi.Facts(from))
+	return
+}
